@@ -13,7 +13,7 @@
 //   C04_STATS     path of a file that receives counters (rewritten every 256 executions
 //                 and at exit)
 //   C04_DESCRIBE  print the decoded case of every input to stderr (used for replays)
-//   C04_HWC0      allow the fake hardware_concurrency() to be 0 (F7, covered by C11)
+//   C04_NO_HWC0   keep the fake hardware_concurrency() >= 1 (0 is a legal value: F7)
 #include <cinttypes>
 #include <cstdio>
 #include <cstdlib>
@@ -122,7 +122,7 @@ extern "C" int LLVMFuzzerInitialize(int *, char ***) {
     split_env("C04_SKIP", g_skip);
     split_env("C04_ONLY", g_only);
     g_describe = getenv("C04_DESCRIBE") != nullptr;
-    g_hwc0 = getenv("C04_HWC0") != nullptr;
+    g_hwc0 = getenv("C04_NO_HWC0") == nullptr;
     g_stats_path = getenv("C04_STATS");
     atexit([]() { write_stats(true); });
     __sanitizer_set_death_callback([]() { write_stats(true); });
@@ -274,7 +274,8 @@ extern "C" int LLVMFuzzerTestOneInput(const uint8_t *data, size_t size) {
     if ((g_stats.inputs & 1023) == 0) write_stats(false);
     int kernel = fdp.ConsumeIntegralInRange<int>(0, 4);
     bool f32 = fdp.ConsumeBool();
-    g_fake_hwc = (unsigned)fdp.ConsumeIntegralInRange<int>(g_hwc0 ? 0 : 1, 64);
+    g_fake_hwc = (unsigned)fdp.ConsumeIntegralInRange<int>(0, 64);
+    if (!g_hwc0 && g_fake_hwc == 0) g_fake_hwc = 1;
     if (!g_only.empty() && !g_only.count(KNAMES[kernel])) return 0;
     std::string desc = std::string(KNAMES[kernel]) + (f32 ? " f32" : " f64") +
                        " hwc=" + std::to_string(g_fake_hwc);
